@@ -609,7 +609,48 @@ def fam_call_order(r, n):
     return lines
 
 
+def fam_stdlib(r, n):
+    """The same standard-library / typeshed functions used by many programs with different
+    argument types and in different ways (call, bound method, alias, from-import alias)."""
+    lines = ["import collections", "import functools", "import itertools", "import os.path", "import re",
+             "from collections import OrderedDict, defaultdict", "from os.path import join as pjoin", "from typing import Any, Dict, List, Optional, Sequence, Tuple", ""]
+    T = r.choice(["int", "str", "bytes", "float"])
+    U = r.choice(["int", "str", "bytes", "float"])
+    lit = TYPED_EXPR
+    lines += ["def std_%d(a: %s, b: %s, xs: List[%s], d: Dict[str, %s], anyv: Any, seq: Sequence[%s]) -> None:" % (n, T, U, T, U, U)]
+    pool = [
+        "reveal_type(os.path.join(a, b))", "reveal_type(pjoin(%s, a))" % lit["str"], "reveal_type(d.get(a))", "reveal_type(d.get(%s, b))" % lit["str"],
+        "reveal_type(%s.join(xs))" % lit["str"], "reveal_type(sorted(xs))", "reveal_type(sorted(seq, key=len))", "reveal_type(max(a, b))", "reveal_type(max(xs))",
+        "reveal_type(min(xs, default=b))", "reveal_type(re.compile(a))", "reveal_type(re.match(%s, b))" % lit["str"], "xs.append(b)", "reveal_type(xs + [b])",
+        "reveal_type(list(itertools.chain(xs, seq)))", "reveal_type(OrderedDict([(a, b)]))", "reveal_type(defaultdict(list, {a: [b]}))",
+        "reveal_type(functools.partial(max, a)(b))", "reveal_type(a + b)", "reveal_type(a.__add__(b))", "reveal_type(len(a))", "reveal_type(abs(a))",
+        "reveal_type(dict(zip(xs, seq)))", "reveal_type(enumerate(xs))", "reveal_type(isinstance(a, (int, str)))", "reveal_type(str(a).split(b))",
+        "reveal_type(sum(xs))", "reveal_type(sum(xs, b))", "reveal_type(divmod(a, b))", "reveal_type(round(a))", "reveal_type(int(a))", "reveal_type(float(b))",
+        "reveal_type(bytes(a))", "reveal_type(tuple(xs))", "reveal_type({k: v for k, v in zip(xs, seq)})", "reveal_type(xs.index(b))", "reveal_type(d.setdefault(a, b))",
+        "reveal_type(d.pop(%s))" % lit["str"], "reveal_type(collections.Counter(xs).most_common(1))", "f = xs.append", "reveal_type(xs.count)", "m = d.get; reveal_type(m(a))",
+        "reveal_type(getattr(a, %s))" % lit["str"], "reveal_type(hash(a) + b)", "reveal_type(open(a))", "reveal_type(print(a, sep=b))",
+    ]
+    # results of stdlib calls handed to parameters typed with typeshed-only bases / protocols, and the
+    # same calls as bare expression statements (a different path through the visitor)
+    pool2 = [
+        "out = open(a, \"w\"); emit_%d(out)" % n, "emit_%d(io.StringIO())" % n, "emit_%d(open(a))" % n, "open(os.path.join(a, b), \"w\")", "io.StringIO()", "io.BytesIO()",
+        "binary_%d(io.BytesIO())" % n, "binary_%d(open(a, \"rb\"))" % n, "sized_%d(re.compile(a))" % n, "sized_%d(xs)" % n, "sized_%d(d)" % n, "sized_%d(a)" % n,
+        "iter_%d(xs)" % n, "iter_%d(d)" % n, "iter_%d(open(a))" % n, "iter_%d(a)" % n, "num_%d(a)" % n, "num_%d(b)" % n, "num_%d(xs)" % n, "hash_%d(xs)" % n, "hash_%d(a)" % n,
+        "mapping_%d(d)" % n, "mapping_%d(OrderedDict())" % n, "mapping_%d(collections.Counter(xs))" % n, "mapping_%d(xs)" % n, "re.compile(a)", "sorted(xs)", "d.get(a)",
+        "collections.Counter(xs)", "itertools.chain(xs)", "seqs_%d(xs)" % n, "seqs_%d(seq)" % n, "seqs_%d(a)" % n, "seqs_%d(collections.deque(xs))" % n,
+    ]
+    for e in r.sample(pool, r.randint(3, 7)) + r.sample(pool2, r.randint(2, 6)):
+        lines.append("    " + e)
+    lines.append("")
+    helpers = ["import io", "from typing import BinaryIO, Hashable, Iterable, Mapping, Sized, SupportsInt, TextIO", "",
+               "def emit_%d(out: TextIO) -> None:" % n, "    pass", "", "def binary_%d(out: BinaryIO) -> None:" % n, "    pass", "", "def sized_%d(s: Sized) -> None:" % n, "    pass", "",
+               "def iter_%d(it: Iterable[str]) -> None:" % n, "    pass", "", "def num_%d(x: SupportsInt) -> None:" % n, "    pass", "", "def hash_%d(h: Hashable) -> None:" % n, "    pass", "",
+               "def mapping_%d(m: Mapping[str, object]) -> None:" % n, "    pass", "", "def seqs_%d(s: Sequence[object]) -> None:" % n, "    pass", ""]
+    return helpers + lines
+
+
 FAMILIES = {
+    "stdlib": fam_stdlib,
     "local_multi": fam_local_multi,
     "equal_literals": fam_equal_literals,
     "call_order": fam_call_order,
